@@ -14,7 +14,7 @@ for f in P.fns:
     if f.body is None or f.body < 0:
         continue
     key = Program.pin_key(f.q, f)
-    ent = {'params': [p.get('n', '') for p in f.params], 'locals': [n for _d, n in Program.local_names(f)], 'cmps': Program.comparison_table(f)}
+    ent = {'params': [p.get('n', '') for p in f.params], 'locals': [n for _d, n in Program.local_names(f)], 'cmps': Program.comparison_table(f), 'ifelse': Program.ifelse_table(f)}
     if key in out and out[key] != ent:
         out[key] = {'ambiguous': True}
     else:
